@@ -204,6 +204,17 @@ Definition impl_date2num (u : unit_t) (r : refdate) (dts : list (list Z)) : opti
   | _, _ => None
   end.
 
+(* the same for a 365/366-day calendar: netCDF4.date2num reads the datetime fields in the variable's calendar *)
+Definition impl_date2num_fixed (leap : bool) (u : unit_t) (r : refdate) (dts : list (list Z)) : option (list Z) :=
+  match impl_parse r, unit_us64 u with
+  | Some p, Some k =>
+      let r0 := fixed_ref_us leap p in
+      all_some (map (fun l => match fixed_us_of_fields leap l with
+                              | Some t => if (t - r0) mod k =? 0 then Some ((t - r0) / k) else None
+                              | None => None end) dts)
+  | _, _ => None
+  end.
+
 (* val2idx(method='nearest') = round-half-even(np.interp(v, xs, arange n)) on an ascending coordinate *)
 Definition round_half_even (num den : Z) : Z :=     (* den > 0 *)
   let q := num / den in let r := num mod den in
